@@ -31,13 +31,16 @@ META = dict(
 INV = ["SameRun", "FlatWallet", "TradesOK", "FlatMeansNoExits", "NoModelError"]
 
 
-def sw_cfg(K, chunk, tf, n, qtys, modes, two, wrong, edits, start, lev, fee, invs):
+LIQFIX = [False]          # variant of liquidate() found in the tree (set by run/replay)
+
+
+def sw_cfg(K, chunk, tf, n, qtys, modes, two, wrong, edits, start, lev, fee, invs, halves=True, liqfix=None):
     b = lambda x: "TRUE" if x else "FALSE"
     return ("SPECIFICATION Spec\nVIEW View\nCHECK_DEADLOCK FALSE\n"
-            "CONSTANTS K = %d Chunk = %d TF = %d NMin = %d Qtys = {%s} Modes = {%s} TwoRows = %s WrongSide = %s Edits = %s\n"
-            "CONSTANTS PB = %d PS = %d Lev = %d FeeNum = %d FeeDen = %d Start = %d DayLen = 1440\n"
-            % (K, chunk, tf, n, ", ".join(str(q) for q in qtys), ", ".join('"%s"' % m for m in modes), b(two), b(wrong), b(edits),
-               W.PB, W.PS, lev, fee[0], fee[1], start)
+            "CONSTANTS K = %d Chunk = %d TF = %d NMin = %d Qtys = {%s} Modes = {%s} TwoRows = %s WrongSide = %s Edits = %s Halves = %s\n"
+            "CONSTANTS PB = %d PS = %d Lev = %d FeeNum = %d FeeDen = %d Start = %d DayLen = 1440 LiqFix = %s\n"
+            % (K, chunk, tf, n, ", ".join(str(q) for q in qtys), ", ".join('"%s"' % m for m in modes), b(two), b(wrong), b(edits), b(halves),
+               W.PB, W.PS, lev, fee[0], fee[1], start, b(LIQFIX[0] if liqfix is None else liqfix))
             + "".join("INVARIANT %s\n" % i for i in invs))
 
 
@@ -52,7 +55,7 @@ def judge(ctx, scens, label, stats):
     for key, tr in sorted(groups.items()):
         d = ctx.sub("whole-%s-%d-%d-%d-%d" % (label, key[0], key[1], key[2][0], key[2][1]))
         sc0 = scens[tr[0]['id'] - 1]
-        verdicts, results = tlc.validate_traces("TraceSimWhole", W.whole_cfg(d, sc0), tr, d, parts=min(16, max(1, len(tr) // 8)),
+        verdicts, results = tlc.validate_traces("TraceSimWhole", W.whole_cfg(d, sc0, LIQFIX[0]), tr, d, parts=min(16, max(1, len(tr) // 8)),
                                                 timeout=2400)
         for r in results:
             stats['tlc_states'] += r.generated
@@ -98,15 +101,18 @@ def from_tlc(r, chunk, tf, K, start, lev, fee):
 def run(ctx):
     ctx.assumptions += ["one symbol, cross margin (no liquidation), the scripted user of harness/drivers/simwhole.py",
                         "quantities 1-2 per entry row and dyadic fee rates keep every float exact; compared as rationals"]
+    R.warm_parent()
+    LIQFIX[0] = W.detect_liqfix()
+    ctx.coverage["liquidate_variant"] = "copy dropped first (repaired)" if LIQFIX[0] else "compares with the stale copy (defect present)"
     # ---------------- M: exhaustive tiny instances
     tiny_q = [(3, 2, 2, 4, [1], ["go"], False, False, False, 300, 1, (1, 64)),
               (3, 1, 1, 3, [2], ["go"], False, False, False, 200, 1, (1, 64))]
     tiny_t = tiny_q + [(3, 1, 1, 3, [1], ["open"], True, False, False, 300, 1, (0, 1)),
-                       (3, 1, 1, 3, [1], ["rel"], False, False, True, 300, 2, (1, 256)),
-                       (3, 3, 3, 6, [1], ["go"], False, True, False, 300, 2, (1, 256))]
+                       (3, 1, 1, 3, [1], ["rel"], False, False, True, 300, 2, (1, 16)),
+                       (3, 3, 3, 6, [1], ["go"], False, True, False, 300, 2, (1, 16))]
     jobs, labels = [], []
     for c in ctx.pick(tiny_q, tiny_t):
-        jobs.append(dict(module="SimWhole", cfg_text=sw_cfg(*c, invs=INV), workers=4, timeout=3000))
+        jobs.append(dict(module="SimWhole", cfg_text=sw_cfg(*c, invs=INV, halves=False), workers=4, timeout=3000))
         labels.append("SimWhole exhaustive K=%d chunk=%d trading=%d minutes=%d qtys=%s modes=%s two=%s wrong=%s edits=%s start=%d lev=%d fee=%s" % c)
     res = tlc.run_parallel(jobs, max_procs=4)
     for r, lab in zip(res, labels):
@@ -115,21 +121,38 @@ def run(ctx):
             raise Machinery("%s violates %s\n%s" % (lab, r.violation["name"], r.violation["trace"][-4000:]))
     probes = [("ProbeTrade", [2], ["go"], False, False, 300), ("ProbeReject", [2], ["go"], False, False, 200),
               ("ProbeIncrease", [1], ["rel"], True, False, 300), ("ProbeInvalid", [1], ["go"], False, True, 300)]
-    pres = tlc.run_parallel([dict(module="SimWhole", cfg_text=sw_cfg(3, 1, 1, 3, q, md, two, False, ed, st, 1, (1, 64), [p]),
+    pres = tlc.run_parallel([dict(module="SimWhole", cfg_text=sw_cfg(3, 1, 1, 3, q, md, two, False, ed, st, 1, (1, 64), [p], halves=False),
                                   workers=2, timeout=900) for (p, q, md, two, ed, st) in probes], max_procs=4)
     probes = [p[0] for p in probes]
     for p, r in zip(probes, pres):
         if not r.violation or r.violation["name"] != p:
             raise Machinery("probe %s not reachable" % p)
+    # liquidate() must close the position: holds for the repaired variant; for the tree's variant TLC exhibits the stale-copy
+    # no-op (the canonical scenario of W.CANON_LIQ is that counter-example executed on the real code)
+    lw = sw_cfg(3, 1, 1, 3, [2], ["go"], False, False, False, 300, 1, (0, 1), ["LiquidateWorks"], halves=True)
+    r = tlc.run("SimWhole", cfg_text=lw, workers=4, timeout=1800)
+    ctx.add_tlc(r, "SimWhole K=3 chunk=1 minutes=3 qty 2 half take-profit: LiquidateWorks (liquidate variant of the tree)")
+    if LIQFIX[0] and r.violation:
+        raise Machinery("LiquidateWorks violated for the repaired liquidate():\n%s" % r.violation["trace"][-3000:])
+    if not LIQFIX[0]:
+        if not r.violation or r.violation["name"] != "LiquidateWorks":
+            raise Machinery("the model does not exhibit the liquidate() no-op that the code shows on the canonical scenario")
+        ctx.violation("liquidate:no-op:stale-copy-of-executed-exit",
+                      "liquidate() leaves the position open: TLC counter-example to SimWhole!LiquidateWorks, and the real "
+                      "simulators do the same on the canonical scenario", {"scenario": W.CANON_LIQ})
+        r2 = tlc.run("SimWhole", cfg_text=sw_cfg(3, 1, 1, 3, [2], ["go"], False, False, False, 300, 1, (0, 1), ["LiquidateWorks"],
+                                                 halves=True, liqfix=True), workers=4, timeout=1800)
+        ctx.add_tlc(r2, "SimWhole same instance, REPAIRED liquidate(): LiquidateWorks")
+        if r2.violation:
+            raise Machinery("the proposed repair of liquidate() does not satisfy LiquidateWorks in the model")
     ctx.log("M done: %d states" % ctx.coverage.get("states", 0))
     # ---------------- R: simulated behaviours, each replayed on the code
-    R.warm_parent()
     rng = random.Random(ctx.seed)
     stats = dict(scenarios=0, fills=0, minutes=0, tlc_states=0, status=collections.Counter(), hook=collections.Counter(),
                  with_trades=0, with_daily_sample=0, with_liquidate=0, with_edit=0, samples=[])
     num = ctx.pick(60, 600)
-    sims = [(5, 3, 3, 12, 700, 1, (1, 64)), (4, 1, 1, 6, 400, 1, (1, 256)), (5, 1, 3, 9, 400, 2, (0, 1)), (6, 5, 5, 15, 2000, 2, (1, 64)),
-            (4, 3, 3, 9, 400, 1, (0, 1)), (5, 3, 15, 30, 700, 2, (1, 256))]
+    sims = [(5, 3, 3, 12, 700, 1, (1, 64)), (4, 1, 1, 6, 400, 1, (1, 16)), (5, 1, 3, 9, 400, 2, (0, 1)), (6, 5, 5, 15, 2000, 2, (1, 64)),
+            (4, 3, 3, 9, 400, 1, (0, 1)), (5, 3, 15, 30, 700, 2, (1, 16))]
     sjobs = []
     for k, (K, ch, tf, n, start, lev, fee) in enumerate(sims):
         sjobs.append(dict(module="SimWhole", workers=2, simulate="num=%d" % num, depth=40 + 12 * n, seed=ctx.seed * 100 + k, timeout=2400,
@@ -166,6 +189,7 @@ def run(ctx):
 def replay(ctx, rp):
     sc = rp["payload"]["scenario"]
     R.warm_parent()
+    LIQFIX[0] = W.detect_liqfix()
     stats = dict(scenarios=0, fills=0, minutes=0, tlc_states=0, status=collections.Counter(), hook=collections.Counter(),
                  with_trades=0, with_daily_sample=0, with_liquidate=0, with_edit=0, samples=[])
     judge(ctx, [sc], "replay", stats)
